@@ -548,6 +548,62 @@ def _res(cell):
     if cell[0] == 'ok': return f'.ok .{cell[1]}'
     return f'.refused .{ERR_OF.get(cell[1], "otherError")}'
 
+# ------------------------------------------------------------------------------------------- propagation: guard first
+_PMUT = ('append', 'extend', 'insert', 'pop', 'remove', 'clear', 'update', 'sort', 'reverse', 'fill', 'setdefault')
+
+def _operand_effects(stmts, operand, helpers, depth=0):
+    """effects on `operand` (a parameter name) performed by `stmts`: attribute / item writes, in-place mutator calls, setattr,
+    through the name itself or a local alias `x = operand`; a call handing the operand (or an alias) to a module-level helper
+    is followed into that helper (one level of nesting per call, depth-limited); to anything else it is reported as an effect."""
+    names = {operand}
+    def root(n):
+        while isinstance(n, (ast.Attribute, ast.Subscript)): n = n.value
+        return n.id if isinstance(n, ast.Name) else None
+    out = []
+    for st in stmts:
+        for n in ast.walk(st):
+            tg = []
+            if isinstance(n, ast.Assign):
+                tg = n.targets
+                if isinstance(n.value, ast.Name) and n.value.id in names:
+                    for t in n.targets:
+                        if isinstance(t, ast.Name): names.add(t.id)
+            elif isinstance(n, (ast.AugAssign, ast.AnnAssign)): tg = [n.target]
+            elif isinstance(n, ast.Delete): tg = n.targets
+            for t in tg:
+                for e in (t.elts if isinstance(t, ast.Tuple) else [t]):
+                    if isinstance(e, (ast.Attribute, ast.Subscript)) and root(e) in names: out.append(ast.unparse(e))
+            if isinstance(n, ast.Call):
+                if isinstance(n.func, ast.Attribute) and n.func.attr in _PMUT and root(n.func.value) in names: out.append(ast.unparse(n.func) + '()')
+                elif isinstance(n.func, ast.Name) and n.func.id == 'setattr' and n.args and root(n.args[0]) in names: out.append(ast.unparse(n)[:40])
+                else:
+                    passed = [i for i, a in enumerate(n.args) if isinstance(a, ast.Name) and a.id in names] + [k.arg for k in n.keywords if isinstance(k.value, ast.Name) and k.value.id in names]
+                    if passed:
+                        h = helpers.get(n.func.id) if isinstance(n.func, ast.Name) else None
+                        if h is None or depth >= 3 or any(not isinstance(i, int) for i in passed): out.append('passed to ' + ast.unparse(n.func))
+                        else:
+                            for i in passed:
+                                if i >= len(h.args.args): out.append('passed to ' + ast.unparse(n.func)); continue
+                                out += [f'{h.name}: {w}' for w in _operand_effects(h.body, h.args.args[i].arg, helpers, depth + 1)]
+    return out
+
+def prop_effects(repo):
+    """for propagate_dft / propagate_fft: what is done to the `wavefront` operand BEFORE the `_propagate_ptype` call that can
+    refuse the operation (the statement of that call included: its arguments are evaluated first)"""
+    prop = _parse(repo, 'lentil/propagate.py')
+    fns = _toplevel(prop, ast.FunctionDef)
+    res = {}
+    for name in ('propagate_dft', 'propagate_fft'):
+        f = fns.get(name)
+        if f is None: raise Refuse(f'{name} not found')
+        if not f.args.args or f.args.args[0].arg != 'wavefront': raise Refuse(f'{name}: first parameter is not `wavefront`')
+        body = [st for st in f.body if not (isinstance(st, ast.Expr) and isinstance(st.value, ast.Constant))]
+        idx = [i for i, st in enumerate(body) if isinstance(st, ast.Assign) and isinstance(st.value, ast.Call) and ast.unparse(st.value.func) == '_propagate_ptype']
+        if len(idx) != 1: raise Refuse(f'{name}: one top-level `… = _propagate_ptype(…)` statement expected')
+        if ast.unparse(body[idx[0]].value.args[0]) != 'wavefront.ptype': raise Refuse(f'{name}: _propagate_ptype is not given wavefront.ptype')
+        res[name] = _operand_effects(body[:idx[0] + 1], 'wavefront', fns)
+    return res
+
 def generate(repo):
     ptypes, wtypes, cells, pcells, fftcells = code_tables(repo)
     classes = class_table(repo, ptypes)
@@ -601,6 +657,10 @@ def generate(repo):
         f'  | .{c} => [' + ', '.join('"' + w.replace('"', "'") + '"' for w in wr) + ']' for c, _, _, wr in classes))
     A('\n/-- `propagate_fft`: the order of its two refusals (`_has_tilt` -> NotImplementedError, `_propagate_ptype` -> TypeError) as in the source; first argument: the wavefront carries fitted tilt -/')
     A('def codePropagateFft : Bool → WType → Res\n' + '\n'.join(f'  | {str(t).lower()}, .{w} => {_res(fftcells[(t, w)])}' for t in (False, True) for w in wtypes))
+    pe = prop_effects(repo)
+    A('\n/-- `propagate_dft` / `propagate_fft`: effects on the `wavefront` operand (attribute or item writes, in-place mutators, also through a local alias or inside a module-level helper the wavefront is handed to) up to and including the `_propagate_ptype` call that can refuse the operation -/')
+    A('def propDftEffectsBeforeTypeCheck : List String := [' + ', '.join('"' + w.replace('"', "'") + '"' for w in pe['propagate_dft']) + ']')
+    A('def propFftEffectsBeforeTypeCheck : List String := [' + ', '.join('"' + w.replace('"', "'") + '"' for w in pe['propagate_fft']) + ']')
     A('\n/-- table "ptype" of docs/user/fundamentals/planes.rst -/')
     A('def docClassPtype : PlaneClass → Option PType\n' + '\n'.join(
         f'  | .{c} => ' + (f'some .{dcls[c]}' if c in dcls else 'none') for c, _, _, _ in classes))
